@@ -265,6 +265,10 @@ def check(ctx):
         if not others:
             last_ok = last_ok and ast.unparse(n.ast.value).endswith(".IDLE") and gr.pdom(n, gr.entry)
     ctx.ob("I6", "async_reset::lands-in-IDLE", last_ok, "async_reset does not end with the state IDLE on every normal path", reset.loc)
+    # a reset always lands in IDLE - also when it runs inside the ping-loop task that
+    # spa.disconnect() cancels (shared rule, see C10.R7)
+    from .c10 import reset_survives_self_cancel
+    reset_survives_self_cancel(ctx, repo, "I6")
     ssi = repo.method(MAN, "async_set_spa_info")
     gs = cfg_of(ssi)
     rc = [n for n, c in calls_named(gs, "async_reset")]
